@@ -223,6 +223,31 @@ def run(ctx, only=None, floors=True, clients=None):
     if floors:
         ctx.floor("R17.2", "order_entry_functions", n_order, 3)
 
+    # ---- R17.6 an ordering is computed from the graph as it is at the call: wrappers that hand out an order do not cache it
+    ctx.rule("R17.6", "every function that returns a dependency order obtains it from the orderer on that very call: no normal return bypasses the ordering call (cells are shared pointers, so the graph can change without any count changing)")
+    entries = {}
+    for f, b0, comp in orderers:
+        for g in F.fns.values():
+            if g.id in comp or g.impl != f.impl:
+                continue
+            if any(callee_id(t) == f.id for bi, t in Body(g).calls()):
+                entries[g.id] = g
+    n_wrap = 0
+    for w in F.fns.values():
+        if w.id in entries or w.kind == "Closure" or not w.id.startswith(("layout21", "gds21", "lef21")):
+            continue
+        wb = Body(w)
+        calls = [bi for bi, t in wb.calls() if callee_id(t) in entries and (entries[callee_id(t)].output or {}).get("s") == (w.output or {}).get("s")]
+        if not calls:
+            continue
+        n_wrap += 1
+        key = w.short
+        if od.normal_exit_reachable(wb, 0, blocks_removed=calls):
+            ctx.violation("R17.6", key, "%s can return an ordering without asking the orderer (a remembered result): after the graph is edited through its shared cell pointers the returned order no longer has dependencies first, and a cycle closed in the meantime is not reported" % key, "%s:%d" % (w.sp[0], w.sp[1]), key)
+        else:
+            ctx.ok("R17.6", key, "every normal return follows the ordering call")
+    ctx.count("order_wrappers", n_wrap)
+
     # ---- R17.3 clients push every dependency
     n_proc = 0
     generic = only is None or any(f.id.startswith("layout21utils::") for f, _, _ in orderers)
